@@ -61,7 +61,7 @@ def rq(rng, lo, hi, den=None):
 
 REFUSED = ['condtype=steam', 'condtype=', 'condtype=AIRWATER', 'cop=-1', 'cop=-1/1000', 'coolcap=-5', 'heateff=-1/10',
            'glazing_ratio=3/2', 'glazing_ratio=-1/100', 'shgc=-1/5', 'shgc=11/10', 'floor_height=-3', 'infil=-1',
-           'vent=-1/2', 'u_value=-2', 'int_heat_flat=3/2', 'int_heat_frad=-1/4', 'int_heat_night=-1']
+           'vent=-1/2', 'u_value=-2', 'int_heat_flat=-1/2', 'int_heat_frad=-1/4', 'int_heat_night=-1']
 MODES = ['cool', 'cool-lim', 'heat', 'heat-lim', 'idle', 'free', 'any', 'crossed']
 
 
